@@ -21,6 +21,8 @@ thread_local! {
 }
 
 pub struct Slot {
+    /// revised session timeout in abstract units
+    pub tmo: i64,
     pub token: NodeId,
     pub session_id: NodeId,
     pub handle: Arc<RwLock<Session>>,
@@ -48,7 +50,7 @@ pub fn sign(key: &crypto::PrivateKey, policy: SecurityPolicy, cert: &[u8], nonce
     }
 }
 
-pub fn create_session(w: &World, l: &mut Link, path: &str) -> (SupportedMessage, Option<Slot>) {
+pub fn create_session(w: &World, l: &mut Link, path: &str, timeout_ms: f64) -> (SupportedMessage, Option<Slot>) {
     l.c.token = NodeId::null();
     let req = CreateSessionRequest {
         request_header: l.c.header(),
@@ -58,7 +60,7 @@ pub fn create_session(w: &World, l: &mut Link, path: &str) -> (SupportedMessage,
         session_name: UAString::from("verif"),
         client_nonce: if l.secure { ByteString::from(mint::stream("client-nonce", 32, |_| true)) } else { ByteString::null() },
         client_certificate: if l.secure { w.client.0.as_byte_string() } else { ByteString::null() },
-        requested_session_timeout: TIMEOUT_MS,
+        requested_session_timeout: timeout_ms,
         max_response_message_size: 0,
     };
     let resp = l.c.call1(req.into());
@@ -82,6 +84,7 @@ pub fn create_session(w: &World, l: &mut Link, path: &str) -> (SupportedMessage,
             }
         }
         l.find_session(&r.authentication_token).map(|handle| Slot {
+            tmo: (r.revised_session_timeout / UNIT_MS).floor() as i64,
             token: r.authentication_token.clone(),
             session_id: r.session_id.clone(),
             handle,
@@ -212,6 +215,9 @@ impl<'a> Run<'a> {
     fn beyond(&self, t: i64) -> bool {
         self.slot(t)
             .map(|s| {
+                if !self.links[0].holds(&s.session_id) {
+                    return false;
+                }
                 let s = s.handle.read();
                 let elapsed = chrono::Utc::now() - s.last_service_request_timestamp();
                 s.session_timeout() > 0.0 && elapsed.num_milliseconds() as f64 > s.session_timeout()
@@ -222,11 +228,12 @@ impl<'a> Run<'a> {
         let mut v = Vec::new();
         for i in 0..self.nslots {
             match self.slots.get(i) {
-                None => v.push(json!({"state": "free", "act": false, "chan": 0})),
+                None => v.push(json!({"state": "free", "act": false, "chan": 0, "to": false})),
                 Some(s) => {
                     let open = self.links[0].holds(&s.session_id);
+                    let to = self.beyond(i as i64 + 1);
                     let h = s.handle.read();
-                    v.push(json!({"state": if open { "open" } else { "closed" }, "act": h.is_activated(), "chan": self.abs(h.secure_channel_id())}));
+                    v.push(json!({"state": if open { "open" } else { "closed" }, "act": h.is_activated(), "chan": self.abs(h.secure_channel_id()), "to": to}));
                 }
             }
         }
@@ -242,7 +249,7 @@ impl<'a> Run<'a> {
         let kind = gets(s, "kind").to_string();
         match gets(s, "ev") {
             "Create" => {
-                let (resp, slot) = create_session(self.w, &mut self.links[ci], "/mixed");
+                let (resp, slot) = create_session(self.w, &mut self.links[ci], "/mixed", if geti(s, "tmo") > 0 { TIMEOUT_MS } else { 0.0 });
                 if let Some(slot) = slot {
                     self.slots.push(slot);
                 }
@@ -358,11 +365,13 @@ impl<'a> Run<'a> {
                 self.see(id);
                 (if ok { "ok" } else { "fault" }, if ok { "Good".into() } else { "OpenSecureChannelFailed".into() })
             }
-            "TimePasses" => {
-                if let Some(sl) = self.slot(t) {
+            "Tick" => {
+                // d units of time pass: every session's record of its last request moves d units into the past
+                let ms = (geti(s, "d") as f64 * UNIT_MS) as i64;
+                for sl in self.slots.iter() {
                     let mut h = sl.handle.write();
-                    let ms = (h.session_timeout().max(1.0) * 10.0) as i64;
-                    h.set_last_service_request_timestamp(chrono::Utc::now() - chrono::Duration::milliseconds(ms));
+                    let last = h.last_service_request_timestamp();
+                    h.set_last_service_request_timestamp(last - chrono::Duration::milliseconds(ms));
                 }
                 ("ok", "Good".into())
             }
@@ -383,7 +392,7 @@ pub fn run_case(case: &Value, out: &mut Obs) {
                 Ok(Some(l)) => links.push(l),
                 _ => {
                     out.push(json!({"case": cid, "i": 1, "ev": "Setup", "fail": "setup", "site": "handshake", "tok": 0, "conn": 0, "chan": 0, "kind": "", "cred": "", "g": 0,
-                                    "class": "none", "code": "", "effect": false, "beyond": false, "st": []}));
+                                    "class": "none", "code": "", "effect": false, "beyond": false, "d": 0, "tmo": 0, "st": []}));
                     return;
                 }
             }
@@ -425,7 +434,13 @@ pub fn run_case(case: &Value, out: &mut Obs) {
             let ci = (geti(s, "conn").max(1) as usize - 1).min(r.links.len() - 1);
             let chan = if geti(s, "conn") >= 1 { r.abs(r.links[ci].chan_id()) } else { 0 };
             obj.insert("chan".into(), json!(chan));
-            obj.insert("beyond".into(), json!(if ev == "TimePasses" { r.beyond(t) } else { beyond_before }));
+            // what the server's own bookkeeping says after the step (compared with the model, not used by the judge)
+            let _ = beyond_before;
+            obj.insert("beyond".into(), json!(r.beyond(t)));
+            if ev == "Create" {
+                let tmo = if failed { 0 } else { r.slot(t).map(|s| s.tmo).unwrap_or(0) };
+                obj.insert("tmo".into(), json!(tmo));
+            }
             obj.insert("effect".into(), json!(before != after));
             obj.insert("val".into(), json!(after.0));
             obj.insert("nsubs".into(), json!(after.1));
